@@ -12,10 +12,14 @@ Definition C07_spec (cap : N) (ops : list op) : list (out * snap) := snd (srun D
 (* the code before fixes/C07_admission_overflow.patch (uint64 `size+space`) *)
 Definition C07_impl_prefix (cap : N) (ops : list op) : list (out * snap) := snd (crun Disk false (cinit cap) ops).
 
+(* states reached from the empty store by a history (concrete layer / spec layer); the abstraction
+   function from concrete to spec states is the projection c_core *)
+Definition reach_c (cap : N) (ops : list op) : cstate := fst (crun Disk true (cinit cap) ops).
+Definition reach_s (cap : N) (ops : list op) : sstate := fst (srun Disk (sinit cap) ops).
+
 (* The property on one OBSERVED trace (results and internal snapshots recorded from the real
    store): every result and every snapshot is the one the reference specification gives —
    reserved = sum of sizes, LRU order by last use, scopes, metadata — and each snapshot on its
    own is well formed (counter = sum of the listed sizes <= capacity; the queue holds exactly
    the complete, not banned keys). *)
-Definition C07_check (cap : N) (ops : list op) (obs : list (out * snap)) : bool :=
-  obs_eqb (C07_spec cap ops) obs && forallb (fun x => snap_wf cap (snd x)) obs.
+Definition C07_check (cap : N) (ops : list op) (obs : list (out * snap)) : bool := lru_check Disk cap ops obs.
